@@ -343,9 +343,11 @@ impl TypeChecker {
         };
 
         // Small edge case: the primitives are already in the typechecker, so we
-        // skip them, but we should override the documentation.
+        // skip them, but we should override the documentation. This only
+        // applies to the scope the primitive lives in: a type of the same name
+        // in another scope is a type of its own.
         if let Some(other) =
-            self.type_info.scope_graph.resolve_name(scope, &ident, true)
+            self.type_info.scope_graph.resolve_name(scope, &ident, false)
             && let DeclarationKind::Type(TypeOrStub::Type(
                 TypeDefinition::Primitive(_) | TypeDefinition::List(_),
             )) = other.kind
